@@ -115,6 +115,9 @@ void LogPrintfFunc(const char *module_id, const char *func_name, const char *fil
     if (CantDispatch())
         return;
 
+    //! read the limit once, under the lock: LogSetMaxLength() may be called while other threads log
+    const size_t max_len = LogGetMaxLength();
+
     if (level < 0) level = 0;
     if (level >= LOG_LEVEL_MAX) level = (LOG_LEVEL_MAX - 1);
 
@@ -142,7 +145,7 @@ void LogPrintfFunc(const char *module_id, const char *func_name, const char *fil
 
     if (fmt != nullptr) {
         if (with_args) {
-            uint32_t buff_size = std::min(2048lu, _LogTextMaxLength) + 1;
+            uint32_t buff_size = std::min(2048lu, max_len) + 1;
 
             for (;;) {
                 va_list args;
@@ -154,7 +157,7 @@ void LogPrintfFunc(const char *module_id, const char *func_name, const char *fil
                 len = ::vsnprintf(buffer, buff_size, fmt, args);
 
                 if (content.text_trunc)
-                    len = _LogTextMaxLength;
+                    len = max_len;
 
                 va_end(args);
 
@@ -168,11 +171,11 @@ void LogPrintfFunc(const char *module_id, const char *func_name, const char *fil
                 }
 
                 //! 没有超过MaxLength，则进行扩张
-                if (len <= _LogTextMaxLength) {
+                if (len <= max_len) {
                     buff_size = len + 1;    //! 要多留一个结束符 \0，否则 vsnprintf() 会少一个字符
 
                 } else {    //! 否则进行截断处理
-                    buff_size = _LogTextMaxLength + 1;  //! 同上
+                    buff_size = max_len + 1;  //! 同上
                     content.text_trunc = true;
                 }
             }
@@ -181,8 +184,8 @@ void LogPrintfFunc(const char *module_id, const char *func_name, const char *fil
             content.text_len = ::strlen(fmt);
 
             //! 如果超出最大长度，要限制
-            if (content.text_len > _LogTextMaxLength) {
-                content.text_len = _LogTextMaxLength;
+            if (content.text_len > max_len) {
+                content.text_len = max_len;
                 content.text_trunc = true;
             }
 
